@@ -254,6 +254,16 @@ func genCase(rng *rand.Rand, n int, seed int64, pf Profile) *CaseDesc {
 				p.Out = pickOut(min)
 				if min == 0 && chance(rng, 0.6) {
 					p.Out = nil
+					// an auto-desired provider that cannot be included (an input nobody provides) but still
+					// lists earlier providers as its sources: it must have no influence on what is eliminated
+					if len(p.In) > 0 && chance(rng, 0.3) {
+						for _, t := range pool {
+							if !contains(avail, t) {
+								p.In = uniq(append(p.In, t))
+								break
+							}
+						}
+					}
 				}
 			}
 			for _, o := range p.Out {
